@@ -245,3 +245,41 @@ func TestFinding_D11_StaleResendAfterUnsend(t *testing.T) {
 		}
 	})
 }
+
+// D12 (C08, C06): a reaccess denial removes the direct counts that in-flight requests
+// still hold; when such a request returns its count the counter becomes negative.
+func TestFinding_D12_NegativeDirectCount(t *testing.T) {
+	runTest(t, func(s *Session) {
+		c := s.Connect()
+		subscribeToTestModelParent(t, s, c, false)       // parent and child (held indirectly)
+		subscribeToCachedResource(t, s, c, "test.model") // child also held directly
+		s.ResourceEvent("test.model", "reaccess", nil)
+		r1 := s.GetRequest(t).AssertSubject(t, "access.test.model")
+		greq := c.Request("get.test.model", nil) // waits for the same access answer
+		time.Sleep(30 * time.Millisecond)
+		r1.RespondSuccess(json.RawMessage(`{"get":false}`))
+		greq.GetResponse(t)
+		c.GetEvent(t).AssertEventName(t, "test.model.unsubscribe")
+		// The resource is now only held indirectly: a reaccess event must not cause an access request.
+		s.ResourceEvent("test.model", "reaccess", nil)
+		select {
+		case r := <-s.NATSTestClient.reqs:
+			t.Errorf("C06: %s requested although the connection has no direct subscription", r.Subject)
+			r.RespondSuccess(json.RawMessage(`{"get":true}`))
+		case <-time.After(200 * time.Millisecond):
+		}
+		time.Sleep(30 * time.Millisecond)
+		sreq := c.Request("subscribe.test.model", nil)
+		select {
+		case r := <-s.NATSTestClient.reqs:
+			r.RespondSuccess(json.RawMessage(`{"get":true}`))
+		case <-time.After(200 * time.Millisecond):
+		}
+		if sr := sreq.GetResponse(t); sr.Error != nil {
+			t.Fatalf("subscribe failed: %v", sr.Error)
+		}
+		if ur := c.Request("unsubscribe.test.model", nil).GetResponse(t); ur.Error != nil {
+			t.Errorf("C08: unsubscribe right after a successful subscribe failed: %v", ur.Error)
+		}
+	})
+}
